@@ -39,8 +39,8 @@ def cvc5_solve(smt2, timeout=CVC5_TIMEOUT):
             pass
 
 
-def discharge(ob):
-    st = vcgen.solve(ob, Z3_TIMEOUT)
+def discharge(ob, z3_ms=None):
+    st = vcgen.solve(ob, z3_ms or Z3_TIMEOUT)
     if st == "unknown":
         r = cvc5_solve(ob.meta.get("smt2", ""))
         if r == "unsat":
@@ -175,7 +175,8 @@ def unq(t):
     return t.replace("c:", "")
 
 
-CALLEES = ["awkward_regularize_rangeslice", "quick_sort", "quick_argsort", "binary_op"]
+CALLEES = ["awkward_regularize_rangeslice", "quick_sort", "quick_argsort", "binary_op",
+           "sort_order_ascending", "sort_order_descending", "argsort_order_ascending", "argsort_order_descending"]
 
 
 def callee_contracts():
@@ -286,7 +287,7 @@ def run_symbol(task):
                 if ob.kind.startswith("S.") and "S" not in opts["kinds"]:
                     continue
                 if ob.status is None:
-                    discharge(ob)
+                    discharge(ob, getattr(c, "z3_budget_ms", None))
                 if ob.meta.get("auto"):
                     continue      # inferred invariants: proved by construction (Houdini), not counted
                 res["obligations"].append(ob_record(symbol, n, ob, info["args"]))
